@@ -19,7 +19,8 @@ REQUIRED_THEOREMS = ["comparison_roundtrip", "condition_roundtrip", "linear_adju
                      "restriction_roundtrip", "container_roundtrip_known", "container_set_fold", "popFold_exact",
                      "populate_erased", "type_set_fold", "param_set_fold", "definition_roundtrip", "exDef_wf", "intRoundTrip",
                      "definition_roundtrip_main", "time_type_roundtrip", "mkStrEnc_ok", "readStrByteOrder_written",
-                     "loadStrTail_written", "spec_fixed", "spec_dyn", "spec_lookup"]
+                     "loadStrTail_written", "spec_fixed", "spec_dyn", "spec_lookup", "enum_entry_key", "enum_fold",
+                     "time_type_roundtrip_num", "time_type_roundtrip_nonnum", "exStrEnum_wf", "exFltEnum_wf", "exBinTime_wf"]
 RULE = ("requests `cyclexml <prefix> <nsmap> <root> <tree>` (definitions loaded from independently written XML, with units, "
         "descriptions incl. empty ones, time types, every optional attribute at non-default values) and `cycleobj <ldef>` "
         "(definitions assembled from objects): write, load, write, load, write on both sides; the by-name serialisation of "
